@@ -101,7 +101,7 @@ def with_scan_helpers(prog, fn):
         sites = []
         for c in cur.body.calls:
             tgt = prog.resolve(c)
-            if tgt is None or tgt.is_closure or tgt.trait_item or tgt.self_adt != fn.self_adt or tgt.path in prog.accessors or not tgt.info.get('mir'):
+            if tgt is None or tgt.is_closure or tgt.trait_item or (tgt.self_adt != fn.self_adt and tgt.family != fn.family) or tgt.path in prog.accessors or not tgt.info.get('mir'):
                 continue
             tb = tgt.body
             if not tb.cfg.loops() or inline.recursive(prog, tgt):
